@@ -5,6 +5,7 @@ import bound_rules
 import validation_rules
 import xml_rules
 import bounds_rules
+import header_rules
 
 TECHNIQUE = "panic-site inventory and interval discharge with writer roots; assume-prune decision table of add_point over (data type, value variant) with range-comparison must-pass; all-or-nothing / state-range tables of the prototype validators; validation-dominates-construction order; writer loop progress incl. the drain loop's >= 1 points per packet invariant; XML-name strength of validate_name"
 EXPLANATION = (
@@ -26,6 +27,7 @@ def run(ctx):
     ctx.rule("R6", "writer loops make progress; max_points_per_packet >= 1; allocation sizes are lengths of in-memory data")
     ctx.rule("R7", "names reach XML only through a validator that implies XML-name validity")
     ctx.rule("R8", "caller strings are stored faithfully: CDATA split for element text, single-pass &,<,\" escaping for attribute values (shared with C04-R5)")
+    ctx.rule("R9", "when finalize succeeded the file opens: header written after the XML was flushed, success is the result of the final flush (shared with C15-R1 / C16-R3)")
     for cfg in ["lib", "lib_crc32c"]:
         prog, info = load_program(cfg, "e57")
         ctx.configs[cfg] = info
@@ -42,4 +44,5 @@ def run(ctx):
         if cfg == "lib":
             xml_rules.xml_name_start(ctx, prog, "R7")
             xml_rules.escaping_gate(ctx, prog, "R8")
+        header_rules.publication_order(ctx, prog, "R9")
     ctx.cfg = None
